@@ -33,6 +33,11 @@ type Rig struct {
 	Horizon    uint64 // cycles
 	HitHorizon bool
 	cfgHash    uint64
+	// StallLimit is the number of cycles without any monitored port event
+	// after which the run is declared stalled.
+	StallLimit   uint64
+	Stalled      bool
+	lastProgress uint64
 	// Abort, when set and true, ends the run (first violation found).
 	Abort func() bool
 	// Kick lists further components to start ticking when the run starts.
@@ -64,13 +69,23 @@ func New(ch *choice.Source, horizon uint64) *Rig {
 		if r.Abort != nil && r.Abort() {
 			return true
 		}
-		if r.Freq.Cycle(r.Eng.CurrentTime()) > r.Horizon {
+		cyc := r.Freq.Cycle(r.Eng.CurrentTime())
+		if cyc > r.lastProgress+r.StallLimit {
+			// No message moved on any monitored port for StallLimit cycles: every
+			// injected fault is bounded far below that, so whatever is still
+			// pending will never complete.
+			r.Stalled = true
+			return true
+		}
+		if cyc > r.Horizon {
 			r.HitHorizon = true
 			return true
 		}
 		return false
 	}
 	r.Rec = monitor.New(r.Eng)
+	r.StallLimit = 20_000
+	r.Rec.OnAny = func() { r.lastProgress = r.Freq.Cycle(r.Eng.CurrentTime()) }
 	r.Mix("swarm", r.Swarm)
 	return r
 }
@@ -167,6 +182,9 @@ func (r *Rig) Run() string {
 	_ = r.Eng.Run()
 	if r.Eng.Stats.CapHit {
 		return "event-cap"
+	}
+	if r.Stalled {
+		return "stalled"
 	}
 	if r.HitHorizon {
 		return "horizon"
